@@ -21,6 +21,7 @@ inline std::string describe(const Prog &p) {
     hz::Desc d; d << (p.is_void ? "signal<void>" : "signal<int>") << (p.coro_mode ? ", collector called from a coroutine (emission co_awaited)" : ", collector called from ordinary code") << ", " << (unsigned)p.ops.size() << " ops:";
     for (auto &o : p.ops) {
         d << " " << opn[o.code];
+        if ((o.code == 0 || o.code == 9) && (o.b & 2) && o.a % 4 != 3) d << "[then keeps its emitter and waits for something else]";
         if (o.code == 0 || o.code == 9 || o.code == 7) d << "(" << (o.a % 4 == 3 ? std::string("until cancelled") : std::to_string(1 + o.a % 4) + " values") << ")";
         if (o.code == 1) d << "(true x" << (unsigned)(o.a % 4) << " then false)";
         if (o.code == 10) d << "(listener wants " << (o.a % 4 == 3 ? std::string("every value") : std::to_string(1 + o.a % 4)) << ", " << (unsigned)(o.b % 5) << " values emitted, then the collector is dropped" << (((o.b / 5) & 1) ? "; the registration function itself emits one value first" : "") << ")";
@@ -54,7 +55,10 @@ struct Run {
     int lvalue_store = 0;
     long callbacks_alive() { return hz::slot_get(12); }
 
-    cocls::async<void> listener(LRec *pr, typename S::emitter em) {
+    // linger: after its last value the listener does not finish - it keeps its emitter object and waits for something else
+    // (released at the very end of the history); it is not waiting on the signal any more and must not keep the others waiting
+    cocls::future<void> linger_gate; cocls::promise<void> linger_p = linger_gate.get_promise(); int lingering = 0, lingered = 0;
+    cocls::async<void> listener(LRec *pr, typename S::emitter em, bool linger = false) {
         LRec &r = *pr;
         for (int i = 0; r.want < 0 || i < r.want; i++) {
             try {
@@ -63,6 +67,7 @@ struct Run {
             } catch (const cocls::await_canceled_exception &) { r.cancelled = true; co_return; }
         }
         r.left = true;
+        if (linger) { lingering++; co_await linger_gate; lingered++; }
     }
     struct CbGuard { CbGuard() { hz::slot_add(12, 1); } CbGuard(const CbGuard &) { hz::slot_add(12, 1); } CbGuard(CbGuard &&) noexcept { hz::slot_add(12, 1); } ~CbGuard() { hz::slot_add(12, -1); } };
 
@@ -71,7 +76,7 @@ struct Run {
     S *any_signal() { return sigs.empty() ? nullptr : sigs.front().get(); }
 
     std::optional<typename S::emitter> spare;     // emitter obtained while the signal was alive
-    void add_listener(int want, bool other_thread, bool overlap) {
+    void add_listener(int want, bool other_thread, bool overlap, bool linger = false) {
         S *s = any_signal();
         if (!s) {
             if (has_handles() || !spare) return;
@@ -83,7 +88,7 @@ struct Run {
         }
         size_t id = L.size();
         L.emplace_back(); L[id].want = want;
-        if (!other_thread) { listener(&L[id], s->get_emitter()).detach(); return; }
+        if (!other_thread) { listener(&L[id], s->get_emitter(), linger).detach(); return; }
         auto em = s->get_emitter();
         LRec *pr = &L[id];
         std::thread t([this, pr, em] { listener(pr, em).detach(); });
@@ -181,7 +186,7 @@ cocls::async<void> emit_coro(Run<VOID> &R, int how, int v) {
 
 template<bool VOID>
 void run_t(const Prog &p) {
-    unsigned max_waiting = 0; bool threaded = false;
+    unsigned max_waiting = 0; bool threaded = false; unsigned lingering_total = 0;
     {
         Run<VOID> R;
         R.sigs.emplace_back(new typename Run<VOID>::S());
@@ -189,7 +194,7 @@ void run_t(const Prog &p) {
         R.spare.emplace(R.sigs[0]->get_emitter());
         for (auto &o : p.ops) {
             switch (o.code) {
-                case 0: case 9: R.add_listener(o.a % 4 == 3 ? -1 : 1 + o.a % 4, false, false); break;
+                case 0: case 9: R.add_listener(o.a % 4 == 3 ? -1 : 1 + o.a % 4, false, false, (o.b & 2) != 0); break;
                 case 1: R.add_callback(o.a % 4); break;
                 case 2: case 3: case 4: case 8: {
                     if (R.cols.empty()) break;
@@ -226,14 +231,17 @@ void run_t(const Prog &p) {
         R.cols.clear(); R.sigs.clear();
         R.disconnect_model();
         R.compare("last handle dropped");
+        R.linger_p();
+        HZ_CHECK(R.lingered == R.lingering, "%d of %d listeners that went on to wait for something else were continued", R.lingered, R.lingering);
+        lingering_total = (unsigned)R.lingering;
         HZ_CHECK(R.callbacks_alive() == 0, "%ld connected callbacks were not released when the signal died", R.callbacks_alive());
     }
     hz::set_class((threaded ? 1 : 0) | (p.coro_mode ? 2 : 0));
     hz::set_nontrivial(max_waiting >= 2);
-    hz::count(0, max_waiting);
+    hz::count(0, max_waiting); hz::count(1, lingering_total);
 }
 
 inline void run(hz::Reader &r) { Prog p = decode(r); if (p.is_void) run_t<true>(p); else run_t<false>(p); }
 static const char *const class_names[] = {"normal", "normal+thread-subscriber", "coroutine-emitter", "coroutine-emitter+thread-subscriber"};
-static const char *const counter_names[] = {"sum_max_waiting_listeners"};
+static const char *const counter_names[] = {"sum_max_waiting_listeners", "listeners_that_kept_their_emitter_and_waited_for_something_else"};
 } // namespace c15
